@@ -2,6 +2,7 @@ package main
 
 import (
 	"fmt"
+	"go/types"
 	"strings"
 
 	"golang.org/x/tools/go/ssa"
@@ -25,11 +26,13 @@ func runC10(c *Ctx, r *Report) {
 	c11R1(c, r, "C10.R8")           // "below its failure limit" over histories: every counted failure is forgotten again after the fail duration, whatever happens to the handler in between (peers outlive configurations)
 	c11PeerKey(c, r, "C10.R12")     // the state a backend is judged on ends with the configurations that name it: every operation on the peer table spells the key the same way (a peer stored under one spelling and released under another outlives its configuration, health flag and all)
 	c10RobinPerInstance(c, r, "C10.R13")
-	c11R6(c, r, "C10.R14")          // "currently available" is judged on counters that only move by +1/-1 pairs: a reset to zero with forgetters still pending drives the failure count negative and hides later failures
+	c11R6(c, r, "C10.R14") // "currently available" is judged on counters that only move by +1/-1 pairs: a reset to zero with forgetters still pending drives the failure count negative and hides later failures
 	c11NoPeerlessUpstream(c, r, "C10.R15")
-	c11Provision(c, r, "C10.R11")   // "available" is judged on the backend's shared state: provisioning an upstream whose address is already in the pool takes the pooled peer, it does not make a second one
-	c03Dial(c, r, "C10.R10", false) // an upstream leaves the rotation for its own failures only: a failed dial is remembered on the peer that was dialed (evaluation of dialPeers over all outcomes), not on its siblings, which other upstreams may share
-	c11Handle(c, r, "C10.R7")       // "below its connection limit" is measured on counters the proxy keeps exact: +1 per peer once connected, -1 when done, nothing left behind by a failed dial
+	defer c15TablesFor(c, r, "C10.R16", "l4proxy.(*Handler)") // "first picks the earliest": the pool is in the order the configuration gives - addresses on the directive line first, upstream blocks after them, each in the order written
+	c11EveryPeerProbed(c, r, "C10.R17")                       // "healthy" is what the active checker found: every peer of every upstream is probed, whatever another peer's address or state
+	c11Provision(c, r, "C10.R11")                             // "available" is judged on the backend's shared state: provisioning an upstream whose address is already in the pool takes the pooled peer, it does not make a second one
+	c03Dial(c, r, "C10.R10", false)                           // an upstream leaves the rotation for its own failures only: a failed dial is remembered on the peer that was dialed (evaluation of dialPeers over all outcomes), not on its siblings, which other upstreams may share
+	c11Handle(c, r, "C10.R7")                                 // "below its connection limit" is measured on counters the proxy keeps exact: +1 per peer once connected, -1 when done, nothing left behind by a failed dial
 }
 
 type polSpec struct {
@@ -235,6 +238,37 @@ func c10PoliciesAs(c *Ctx, r *Report, r1, r2, r3 string) {
 	}
 }
 
+// c10IncrementWrapper: g is a method of the policy (same receiver type as sel) every result of which is the result
+// of an atomic.AddUint32 executed in that call.
+func c10IncrementWrapper(g, sel *ssa.Function) bool {
+	if g == nil || sel == nil || g.Pkg != sel.Pkg || len(g.Blocks) == 0 || g.Signature.Recv() == nil || sel.Signature.Recv() == nil ||
+		!types.Identical(g.Signature.Recv().Type(), sel.Signature.Recv().Type()) {
+		return false
+	}
+	rets := returnsOf(g)
+	if len(rets) == 0 {
+		return false
+	}
+	for _, ret := range rets {
+		if len(ret.Results) != 1 {
+			return false
+		}
+		ok := false
+		for _, o := range origins(ret.Results[0], sliceOpts{}) {
+			if o.Kind == "call" && o.Desc == "sync/atomic.AddUint32" {
+				ok = true
+			}
+			if o.Kind == "field" {
+				return false
+			}
+		}
+		if !ok {
+			return false
+		}
+	}
+	return true
+}
+
 func c10R5(c *Ctx, r *Report, rule string) {
 	r.rule(rule, "round_robin: every pool index derives from the result of an atomic.AddUint32 on the policy's counter executed in the same loop iteration (the counter advances once per probe); ip_hash: the hashed key derives only from the upstream's String() and the client address with the port split off", 2)
 	if fn := c.Fn("modules/l4proxy.(*RoundRobinSelection).Select"); fn != nil {
@@ -251,6 +285,9 @@ func c10R5(c *Ctx, r *Report, rule string) {
 				for _, o := range origins(ia.Index, sliceOpts{}) {
 					if o.Kind == "call" && o.Desc == "sync/atomic.AddUint32" {
 						add = o.V.(*ssa.Call)
+					}
+					if cl, isCall := o.V.(*ssa.Call); o.Kind == "call" && isCall && c10IncrementWrapper(cl.Call.StaticCallee(), fn) {
+						add = cl // a method of the policy that returns the increment's result
 					}
 					if o.Kind == "field" {
 						good, detail = false, "index reads the counter field plainly"
